@@ -56,7 +56,7 @@ type Term struct {
 	val   uint64
 	name  string
 	extra int
-	h1    uint64 // structural hash (stable across workers)
+	h1    uint64           // structural hash (stable across workers)
 	vars  map[int]struct{} // lazily computed set of var ids (for free-variable checks)
 }
 
@@ -856,7 +856,9 @@ func sortStr(w int) string {
 	return fmt.Sprintf("(_ BitVec %d)", w)
 }
 
-func smtName(s string) string { return "|" + strings.ReplaceAll(strings.ReplaceAll(s, "|", "_"), "\\", "_") + "|" }
+func smtName(s string) string {
+	return "|" + strings.ReplaceAll(strings.ReplaceAll(s, "|", "_"), "\\", "_") + "|"
+}
 
 func constStr(w int, v uint64) string {
 	if w%4 == 0 {
